@@ -1,8 +1,8 @@
-\* design-level check: PPModel with every deviation off refines the declarative Expand on space "q3s"
+\* design-level check: PPModel with every deviation off refines the declarative Expand on space "qp"
 SPECIFICATION Spec
 CONSTANTS
   Devs <- NoDevs
-  Space = "q3s"
+  Space = "qp"
   Modes = {"E"}
   EmitCases = FALSE
   PeekBudget = 0
